@@ -23,6 +23,14 @@ func init() { runtime.LockOSThread() }
 
 func data(which string) *session.Data {
 	d := &session.Data{DC: 2, Addr: "149.154.167.50:443", AuthKey: bytes.Repeat([]byte{0x11}, 256), AuthKeyID: bytes.Repeat([]byte{0x22}, 8), Salt: 1111}
+	if which == "new" && os.Getenv("SESS_SCENARIO") == "same" {
+		// same encoded length as the old session: only contents differ
+		d.AuthKey = bytes.Repeat([]byte{0x55}, 256)
+		d.AuthKeyID = bytes.Repeat([]byte{0x66}, 8)
+		d.Salt = 3333
+		d.Addr = "149.154.167.99:443"
+		return d
+	}
 	if which == "new" {
 		d.AuthKey = bytes.Repeat([]byte{0x33}, 256)
 		d.AuthKeyID = bytes.Repeat([]byte{0x44}, 8)
